@@ -6,7 +6,7 @@ done_fiber reclamation) on the T1 machine with coq/Join.v (client of coq/T1K.v)
 + implementation-side monitor (return-value oracle, reclaim oracle, quarantine
 of the reclaimed fiber).
 
-Known findings on the pinned tree (known_findings_C04.json) are matched by the
+Known findings (known_findings.json, entries with property C04) are matched by the
 *cause* the monitor derives from the implementation trace, never by property id."""
 import json
 import os
@@ -14,15 +14,16 @@ import random
 
 from vf import core
 
-THEOREMS = ["join_success_before_finish_refuted",
-            "join_success_after_finish_with_value_partial",
+THEOREMS = ["join_success_before_finish_prefix_refuted",
+            "join_success_after_finish_with_value",
             "join_two_successes_refuted",
             "join_at_most_one_success_partial",
             "join_detached_fails",
             "reclaim_once_after_finish_and_release",
             "no_touch_after_reclaim_refuted",
             "no_touch_after_reclaim_partial",
-            "join_detach_race_strands_target_refuted"]
+            "join_detach_race_strands_target_refuted",
+            "detach_steals_from_finishing_target_refuted"]
 JOIN, TRY, DETACH, YIELD, FINISH = 1, 2, 3, 4, 5
 OPNAME = {JOIN: "join", TRY: "tryjoin", DETACH: "detach", YIELD: "yield", FINISH: "finish"}
 T1_SOURCES = ["src/fiber_manager.c", "src/fiber.c", "src/fiber_mutex.c", "src/fiber_spinlock.c",
@@ -49,7 +50,7 @@ def parse_case(case):
 def analyse(case, tr):
     """Replays an implementation trace against the property.  Returns a list
     of (text, cause) - cause is the protocol-level reason the monitor can name:
-      'detach-took-joiner'   a fiber_detach took a sleeping JOINER out of join_info (F-C04a)
+      'detach-took-joiner'   a fiber_detach took a sleeping JOINER out of join_info (F-C04a before 4ff1f32; F-C04e)
       'join-took-joiner'     a fiber_join/fiber_tryjoin took a sleeping JOINER out of join_info (F-C04c)
       'overlap-release'      an operation that began before the handle was released ran on after
                              the release and touched / spun on the reclaimed fiber (F-C04b)
@@ -245,11 +246,11 @@ def _clients_with_handle_ops(case):
     return sum(1 for p in progs[1:] if any(o in (JOIN, TRY, DETACH) for (o, _) in p))
 
 
-def _m_a(label, case, why):
+def _m_e(label, case, why):
+    # what is left of F-C04a after 4ff1f32: only the hang of the loser of the race for join_info;
+    # a join that returns SUCCESS early / with NULL after a detach took it is NOT known any more
     return ("{cause=detach-took-joiner}" in why and _has(case, DETACH) and _has(case, JOIN) and
-            (why.startswith("join returned SUCCESS before the target finished") or
-             why.startswith("join returned SUCCESS with result 0 but the target finished") or
-             "spins forever in clear_or_wait" in why))
+            "spins forever in clear_or_wait" in why and not why.startswith("join returned SUCCESS"))
 
 
 def _m_c(label, case, why):
@@ -270,7 +271,7 @@ def _m_d(label, case, why):
             why.startswith("the target spins forever in clear_or_wait"))
 
 
-MATCH = {"F-C04b": _m_b, "F-C04c": _m_c, "F-C04d": _m_d}
+MATCH = {"F-C04b": _m_b, "F-C04c": _m_c, "F-C04d": _m_d, "F-C04e": _m_e}
 
 
 def known():
@@ -438,4 +439,4 @@ TRUSTED = [
 ]
 ASSUME = ["given C01 and C02 (a fiber behaves as a sequential process that is resumed once per wake-up): the T1 cut of DESIGN.md 3.4",
           "thread 0's program ends with the body of fiber_join_routine (static in fiber.c), reproduced textually in rt/h_join.c",
-          "known findings F-C04a..d (known_findings_C04.json): the *_partial theorems exclude exactly those histories"]
+          "known findings F-C04b..e (known_findings.json, property C04): the hypotheses of the theorems exclude exactly those histories; F-C04a is repaired (4ff1f32) and kept as a regression (model parameter, corpus line 1)"]
